@@ -40,7 +40,7 @@ func (check) Cases(tier string) int {
 }
 
 func (check) Rule() string {
-	return "one data tree per case (top-level dictionary, keys a,b,c repeated at every depth, depth 3 (1/8: 5), lists up to 3 (1/8: 6) wide, leaves from gen.Prims plus Go ints/uints/floats of all widths, nil, {}, []; every case adds 9 freshly drawn numbers of random Go types to the leaf pool (float32/float64 from random bit patterns, short decimal fractions, integral and scaled normal values; integers over the whole range of their width) and gives 1/3 of the all-leaf lists and 1/6 of the all-leaf dictionaries one random element type so that []T, [N]T, *[N]T, map[string]T are frequent; 3/4 of the cases insist on nested containers) given (1) in ~13 Go representations (map[string]interface{}, map[interface{}]interface{}, reflect.StructOf structs with renaming tags / inline struct and map groups / ignored fields / typed nil fields, map[string]T, []T, [N]T, *[N]T, map[string]map, []map, pointers to maps, structs and primitives, pointers to pointers, *Config built from another representation, a Child handle, maps holding *Config or Config values, a per-node random mixture; in the first 3 cases of a run also a top-level Config passed by value), with and without PathSep; the structs of the per-node carriers are written under a random tag name (config, json, cfg, yaml) selected by the StructTag option of the call, and a third of their fields carry a second tag of another name that names, ignores or inlines the field differently; (2) unpacked into map[string]interface{} and fed back (canonical equality and VerifWalk structure equality, wiring of every node); (3) in ~4 random partial flattenings into dotted keys with PathSep(\".\") (each dictionary edge folded or nested, sub-trees divided at any depth between several dotted keys and a nested rest, dotted keys inside nested maps, complete lists spelled by numeric positions) each carried by 1-2 of: map, interface-keyed map, typed map, struct tags, mixture; (4) in 2 map-carried duplicate constructions (a: one leaf dotted and nested / two partial spellings of its path; b: dotted key below a primitive defined flat, nested or dotted; c: dotted list position plus the list, flat or nested) embedded in the tree at depth 0-2, each built 40 times with permuted insertion order, and 1 deterministic struct-carried duplicate (same tag twice, inline struct/map vs named field, dotted tag vs nested field, dotted tag below a scalar field; both declaration orders); (5) as one run-time struct type (nested, by value/pointer) whose fields carry 2-3 tag sets at once, each field independently named (tree key, other key, fresh, dotted) / inlined / ignored under each tag set, normalised 3-5 times in a row while switching the StructTag option (default tag included) and the form (value, pointer, inside a map, inside []interface{}, element of []T and of map[string]T; NewFrom or Merge into an empty config): every call must give the tree its own tag set describes; a quarter of the dictionary valued fields hold an existing Config (named or inlined); (6) with one dictionary S built once as ONE Go value (root *Config, child handle, Config by value, *struct, *map, map, interface-keyed map, struct) and used under 2-3 keys of the tree and twice in a list, some places extended by dotted sibling keys into S's namespace (also below a dictionary of S) or by a second struct field of the same name, carried by a struct in both declaration orders or a map and normalised 2-3 times in a row. Everywhere: inline groups of struct carriers also arrive as *Config / Config by value / interface{} holding *Config; every representation and flattening is normalised a second time from the same Go value (same data, same stored structure); every *Config inside an input is compared with its content, parent and path before the call; flattenings divide dictionaries with nil placeholders (a setting given in one part is nil in the other) and lists by position (some positions dotted, nil placeholders or a shorter list in the nested part); struct and mixed carriers are run in both declaration orders. A fifth of the cases use the key pool a,b,c,\"\" (the empty name: dotted spellings beginning or ending with the separator; never as a struct tag). Lists of the tree are also handed in as the top-level value ([]interface{}, typed, *[]interface{}, [N]interface{}, list *Config; unpacked into []interface{} and fed back). Struct carriers get, 1 in 16, an inline field holding nil (nil interface, nil map, nil *struct, nil *Config, nil *map) and lists are, 1 in 12, carried by a struct whose only field is an inlined list Config. Every 60th case adds (7) one wide tree of 300..40000 primitives (log-uniform; 7 shapes) read in generic, typed, interface-keyed, Config-valued, top-level and completely dotted form, with the elements copied while growing lists (hook grow) bounded linearly, and every 60th case (8) one chain of 20..30000 dictionaries (log-uniform) spelled nested, as one dotted key and in two mixtures: same outcome (accepted with the same data, or refused) for every spelling; the first 3 cases of a run read nil pointers (to map, struct, Config, interface) as the top-level value. (10) The tree plus 1-2 more empty containers is rendered twice with identical choices and no dotted keys - every empty list and dictionary allocated with length 0 / every one nil (generic, typed []T and map[string]T of 8 element types, behind a pointer, as a typed struct field, as element of [][]T and [N][]T) - and the two configs are compared exactly (unpacked data with nil, {} and [] kept apart; kind, sizes and list-ness of every stored node). (11) One or two nested dictionaries of the tree (also elements of lists) get a list part of 1-4 (1/8: 5-10) positions next to their names (primitives, 1/4 of the inner positions nil, some elements dictionaries, lists or such an object again) and the tree is read in 5 spellings x 6 carriers: positions as decimal keys of the nested map, every setting / only the positions / only the names as dotted keys of the enclosing map, nil positions written or left out, inside an existing Config; unpacked data, stored structure and the fed-back result must agree. (12) Two lists of 1-48 elements (lengths around powers of two frequent; 0-80 % nil elements that are left out) are written position by position in a fixed order (ascending, descending, shuffled, evens then odds, ascending runs exchanged, tail first) by a struct whose tags are dotted paths ending in the position, by a struct one level down whose tags are the positions, and by a map with the same dotted keys; a quarter with a nested prefix of the list next to the dotted rest, a third sharing the object with a name: same data and stored structure as the nested list, every slot holding a value. Non-trivial = tree with >= 2 container levels and >= 3 primitive leaves; distinct = distinct tree."
+	return "one data tree per case (top-level dictionary, keys a,b,c repeated at every depth, depth 3 (1/8: 5), lists up to 3 (1/8: 6) wide, leaves from gen.Prims plus Go ints/uints/floats of all widths, nil, {}, []; every case adds 9 freshly drawn numbers of random Go types to the leaf pool (float32/float64 from random bit patterns, short decimal fractions, integral and scaled normal values; integers over the whole range of their width) and gives 1/3 of the all-leaf lists and 1/6 of the all-leaf dictionaries one random element type so that []T, [N]T, *[N]T, map[string]T are frequent; 3/4 of the cases insist on nested containers) given (1) in ~13 Go representations (map[string]interface{}, map[interface{}]interface{}, reflect.StructOf structs with renaming tags / inline struct and map groups / ignored fields / typed nil fields, map[string]T, []T, [N]T, *[N]T, map[string]map, []map, pointers to maps, structs and primitives, pointers to pointers, *Config built from another representation, a Child handle, maps holding *Config or Config values, a per-node random mixture; in the first 3 cases of a run also a top-level Config passed by value), with and without PathSep; the structs of the per-node carriers are written under a random tag name (config, json, cfg, yaml) selected by the StructTag option of the call, and a third of their fields carry a second tag of another name that names, ignores or inlines the field differently; (2) unpacked into map[string]interface{} and fed back (canonical equality and VerifWalk structure equality, wiring of every node); (3) in ~4 random partial flattenings into dotted keys with PathSep(\".\") (each dictionary edge folded or nested, sub-trees divided at any depth between several dotted keys and a nested rest, dotted keys inside nested maps, complete lists spelled by numeric positions) each carried by 1-2 of: map, interface-keyed map, typed map, struct tags, mixture; (4) in 2 map-carried duplicate constructions (a: one leaf dotted and nested / two partial spellings of its path; b: dotted key below a primitive defined flat, nested or dotted; c: dotted list position plus the list, flat or nested) embedded in the tree at depth 0-2, each built 40 times with permuted insertion order, and 1 deterministic struct-carried duplicate (same tag twice, inline struct/map vs named field, dotted tag vs nested field, dotted tag below a scalar field; both declaration orders); (5) as one run-time struct type (nested, by value/pointer) whose fields carry 2-3 tag sets at once, each field independently named (tree key, other key, fresh, dotted) / inlined / ignored under each tag set, normalised 3-5 times in a row while switching the StructTag option (default tag included) and the form (value, pointer, inside a map, inside []interface{}, element of []T and of map[string]T; NewFrom or Merge into an empty config): every call must give the tree its own tag set describes; a quarter of the dictionary valued fields hold an existing Config (named or inlined); (6) with one dictionary S built once as ONE Go value (root *Config, child handle, Config by value, *struct, *map, map, interface-keyed map, struct) and used under 2-3 keys of the tree and twice in a list, some places extended by dotted sibling keys into S's namespace (also below a dictionary of S) or by a second struct field of the same name, carried by a struct in both declaration orders or a map and normalised 2-3 times in a row. Everywhere: inline groups of struct carriers also arrive as *Config / Config by value / interface{} holding *Config; every representation and flattening is normalised a second time from the same Go value (same data, same stored structure); every *Config inside an input is compared with its content, parent and path before the call; flattenings divide dictionaries with nil placeholders (a setting given in one part is nil in the other) and lists by position (some positions dotted, nil placeholders or a shorter list in the nested part); struct and mixed carriers are run in both declaration orders. A fifth of the cases use the key pool a,b,c,\"\" (the empty name: dotted spellings beginning or ending with the separator; never as a struct tag). Lists of the tree are also handed in as the top-level value ([]interface{}, typed, *[]interface{}, [N]interface{}, list *Config; unpacked into []interface{} and fed back). Struct carriers get, 1 in 16, an inline field holding nil (nil interface, nil map, nil *struct, nil *Config, nil *map) and lists are, 1 in 12, carried by a struct whose only field is an inlined list Config. Every 60th case adds (7) one wide tree of 300..40000 primitives (log-uniform; 7 shapes) read in generic, typed, interface-keyed, Config-valued, top-level and completely dotted form, with the elements copied while growing lists (hook grow) bounded linearly, and every 60th case (8) one chain of 20..30000 dictionaries (log-uniform) spelled nested, as one dotted key and in two mixtures: same outcome (accepted with the same data, or refused) for every spelling; the first 3 cases of a run read nil pointers (to map, struct, Config, interface) as the top-level value. (10) The tree plus 1-2 more empty containers is rendered twice with identical choices and no dotted keys - every empty list and dictionary allocated with length 0 / every one nil (generic, typed []T and map[string]T of 8 element types, behind a pointer, as a typed struct field, as element of [][]T and [N][]T) - and the two configs are compared exactly (unpacked data with nil, {} and [] kept apart; kind, sizes and list-ness of every stored node). (11) One or two nested dictionaries of the tree (also elements of lists) get a list part of 1-4 (1/8: 5-10) positions next to their names (primitives, 1/4 of the inner positions nil, some elements dictionaries, lists or such an object again) and the tree is read in 5 spellings x 6 carriers: positions as decimal keys of the nested map, every setting / only the positions / only the names as dotted keys of the enclosing map, nil positions written or left out, inside an existing Config; unpacked data, stored structure and the fed-back result must agree. (12) Two lists of 1-48 elements (lengths around powers of two frequent; 0-80 % nil elements that are left out) are written position by position in a fixed order (ascending, descending, shuffled, evens then odds, ascending runs exchanged, tail first) by a struct whose tags are dotted paths ending in the position, by a struct one level down whose tags are the positions, and by a map with the same dotted keys; a quarter with a nested prefix of the list next to the dotted rest, a third sharing the object with a name: same data and stored structure as the nested list, every slot holding a value. (13) One existing Config whose names hold the separator of the later call literally (1-4 names per dictionary, 3/5 of them 2-3 segments a/b/c joined by the separator ., /, | or ::, some beginning or ending with it or with a numeric segment, also below the top level and inside lists; built without PathSep, or 1/3 with ANOTHER separator from a spelling that folds some dictionaries) is handed to NewFrom or Merge (3/4 with PathSep(separator of the names), 1/4 without) as the top-level value (pointer, by value), as a value (generic / typed / interface-keyed map, list element, struct field by pointer, by value, behind interface{}) and as the inline part of a struct (pointer, by value, behind interface{}; struct by value or pointer; either field order; the sibling tag plain or dotted): every presentation must show the tree the Config itself shows, and leave the Config as it was. Non-trivial = tree with >= 2 container levels and >= 3 primitive leaves; distinct = distinct tree."
 }
 
 func (check) Assumptions() []string {
@@ -61,6 +61,7 @@ func (check) Assumptions() []string {
 		"inputs are data: the same Go value normalises to the same config in every call and at every place; configs handed in keep content, Parent() and Path()",
 		"numbers: any finite value of any Go number type except NaN, infinities and negative zero (not pinned down); a float32 stands for the real number it holds exactly",
 		"struct tags: only name, inline/squash and ignore are generated; fields without the selected tag (default names), unexported fields and the merge/replace/append/prepend flags are not generated; names written under one tag set never collide inside one namespace (duplicates are part 4); a struct type with a dotted name under any of its tag sets is always read with PathSep",
+		"part 13 (names of an existing Config holding the separator literally): a whole name is never numeric, never empty and never of the form [..] (positions, the empty name and escaped paths are parts 11, 3 and C20's); the Config is read with Unpack into map[string]interface{} without options; Child / Has / setters with such names are not driven",
 	}
 }
 
@@ -1896,9 +1897,10 @@ func (check) Run(seed int64, tier string, idx int, verbose bool) harness.Result 
 	// they were for a given seed
 	mixedDesc := k.mixedObjects()
 	orderedDesc := []string{k.orderedPositions(), k.orderedPositions()}
+	literalDesc := k.literalSeparators()
 
 	if idx < 2 || verbose {
-		s := map[string]interface{}{"tree": t.String(), "canonical": k.want, "flattenings": flat, "duplicates": dups, "multi_tag_struct": views, "shared_value": shared, "wide": wideDesc, "deep": deepDesc, "empty_container_twins": twins, "mixed_object": mixedDesc, "ordered_positions": orderedDesc}
+		s := map[string]interface{}{"tree": t.String(), "canonical": k.want, "flattenings": flat, "duplicates": dups, "multi_tag_struct": views, "shared_value": shared, "wide": wideDesc, "deep": deepDesc, "empty_container_twins": twins, "mixed_object": mixedDesc, "ordered_positions": orderedDesc, "literal_separator_names": literalDesc}
 		if idx < 2 {
 			res.Sample = s
 		}
